@@ -20,6 +20,7 @@ func init() {
 var wPosition = map[string]string{"insert": "node", "delete": "node", "getBlockProof": "node", "markToCollect": "node"}
 
 func runC09(r *engine.Run) {
+	r.Rule("ORDER-hashfresh", "see C10: a node's serialised form never embeds a cached hash that may be stale (Save hashes before it encodes): a reloaded value node hands its parent the recorded hash, so a stale one makes the root differ from the independent computation")
 	r.Rule("DOM-save", "see C11: every arm of commit puts its node into the batch before each success return (a short node that is not saved because 'the branch above carries it' is missing when it is the root: the committed trie cannot be reopened from its root hash)")
 	r.Rule("EXH-W", "in insert, delete, getBlockProof and markToCollect every type test of the position node (the walk's current, possibly collapsed node) for a kind other than *hashNode is preceded on every path by a *hashNode test of the position (dominating it), or leads on its failure edge to one before the function exits: a collapsed reference is resolved before it is interpreted as 'something else / empty'")
 	r.Rule("DEP-weight", "in the branch arm of insert and delete the value stored to routingNode.weight and the returned weight change both depend on the change returned by the recursive call; in the shared-prefix arm the returned change does")
@@ -90,6 +91,7 @@ func runC09(r *engine.Run) {
 	rejectKind(r, "DOM-reject")
 	lockRootWrite(r, "LOCK-rootwrite")
 	domSave(r)
+	orderHashFresh(r, "ORDER-hashfresh")
 }
 
 func wfn(r *engine.Run, rule, name string) *ssa.Function {
@@ -334,6 +336,49 @@ func depWeight(r *engine.Run) {
 						}
 					}
 					r.Check(stored, rule, fn(f)+"|*routingNode arm|stored weight", r.P.Pos(ch.Pos()), "branch weight updated by the child's change", "the branch arm does not fold the child's change into its own weight: total weight no longer follows content")
+					// ... and before every success return that follows the descent
+					var wstores []*ssa.Store
+					for b := range arm.blocks {
+						for _, in := range b.Instrs {
+							if st, ok := in.(*ssa.Store); ok {
+								if fld := engine.FieldOf(st.Addr); fld != nil && fld.Name() == "weight" && isNamed(st.Addr.(*ssa.FieldAddr).X.Type(), pkgWMPT, "routingNode") && dependsOn(st.Val, ch) {
+									wstores = append(wstores, st)
+								}
+							}
+						}
+					}
+					late := ""
+					for _, ret := range engine.Returns(f) {
+						if !arm.blocks[ret.Block()] || len(ret.Results) != 3 || !nilConst(resultValue(ret, 2)) {
+							continue
+						}
+						chI, isI := ch.(ssa.Instruction)
+						if !isI || !engine.ReachableAfter(chI, ret) {
+							continue
+						}
+						dom := false
+						for _, st := range wstores {
+							if engine.InstrDominates(st, ret) {
+								dom = true
+							}
+						}
+						if !dom {
+							if facts, okf := engine.FactsOn(f, ret.Block()); okf {
+								for _, ft := range facts {
+									if ft.Kind == "eq" && ft.Truth && (ft.A == ch && isZero(ft.B) || ft.B == ch && isZero(ft.A)) {
+										dom = true // nothing to fold in
+									}
+								}
+							}
+						}
+						if !dom {
+							late = r.P.Pos(ret.Pos())
+						}
+					}
+					if stored {
+						r.Check(late == "", rule, fn(f)+"|*routingNode arm|weight before return", r.P.Pos(ch.Pos()), "the child's change is folded into the branch weight before every success return that follows the descent",
+							"the branch arm returns ("+late+") after the descent without having folded the child's change into its own weight: the branches above keep a stale weight, so Weight() and the root no longer follow content and honest proofs verify to another root")
+					}
 				}
 			}
 		}
